@@ -647,6 +647,15 @@ func VHHistory() {
 	maps.VMapHistory(t, maps.VKind{Name: "BTree", SortedKeys: true, Inv: func() { VInv(t) }})
 }
 
+// VHAscHistory: n ascending Puts from the constructor, then D arbitrary Put/Remove steps (see VMapAscHistory).
+func VHAscHistory() {
+	t := NewWith[int, int](v.CfgOr("m", 3), vl.Cmp)
+	if v.CfgOr("ctor", 0) == 1 { // the default-comparator constructor (cmp.Compare); only meaningful with cmp=0
+		t = New[int, int](v.CfgOr("m", 3))
+	}
+	maps.VMapAscHistory(t, maps.VKind{Name: "BTree", SortedKeys: true, Inv: func() { VInv(t) }})
+}
+
 // vDeepCheck: whole-structure observers on a large tree of concrete shape and symbolic content.
 func vDeepCheck(t *Tree[int, int], ek, ev []int) {
 	VInv(t)
